@@ -329,6 +329,26 @@ def analyze(ctx, want):
             nxt_ = [k_ for k_, e_ in enumerate(p.events) if k_ > i_n and e_[0] == "call" and re.search(r"Scope::<.*>::(node_named|edge::)", e_[2])]
             sl = [e_ for e_ in p.events[i_n:(nxt_[0] if nxt_ else len(p.events))] if e_[0] == "call" and re.search(r"::set_label$", e_[2])]
             acc = [(c, o) for c, o in p.conds if c[0] == "field" and c[2] == "0" and "end_states" in S.fstr(c)]
+            # (the accepting flags walked directly: `for (id, (is_accepting, terminal)) in end_states.iter().enumerate()` — the list
+            # has one entry per state, W_SID in rules/panics.py, so its index is the state id)
+            enum_es = {"item@bb%d" % e_[1] for e_ in p.events if e_[0] == "call" and re.search(r"iter::Enumerate<.*> as std::iter::Iterator>::next$", e_[2])
+                       and "compiled_dfa.end_states" in S.fstr(e_[7][0] if len(e_) > 7 else e_[3][0])}
+
+            def es_entry(t_):
+                """the enumerate item if t_ is `<entry of end_states at the walk's index>.0`"""
+                if not (t_[0] == "field" and t_[2] == "0"):
+                    return None
+                x_ = t_[1]
+                while x_[0] in ("deref", "ref"):
+                    x_ = x_[1]
+                if x_[0] == "field" and x_[2] == "1" and x_[1][0] == "sym" and x_[1][1] in enum_es:
+                    return x_[1]
+                return None
+            acc_item = None
+            if not acc and enum_es:
+                acc = [(c, o) for c, o in p.conds if es_entry(c) is not None]
+                if acc:
+                    acc_item = es_entry(acc[-1][0])
             lab = fmt_parts(argval(sl[-1], 1), ex, p) if sl else None
             labv = ex.deref_val(p, argval(sl[-1], 1)) if sl else None
             if zero and zero[-1][1] is True:
@@ -338,7 +358,7 @@ def analyze(ctx, want):
             elif acc and acc[-1][1] is True:
                 node_cases.add("accepting")
                 ok = lab is not None and len(lab[1]) == 2 and lab[1][0] == idv and " T" in lab[0]
-                ok2 = ok and S.fstr(lab[1][1]) == S.fstr(acc[-1][0][1]) + ".1" and S.mentions(acc[-1][0], lambda x: x == idv)
+                ok2 = ok and S.fstr(lab[1][1]) == S.fstr(acc[-1][0][1]) + ".1" and (S.mentions(acc[-1][0], lambda x: x == idv) or (acc_item is not None and idv == ("field", acc_item, "0")))
                 ob("C18.b", "accepting-label-is-(id, token type of the same state)", bool(ok2), "label args %s under test %s" % ([S.fstr(v)[:50] for v in lab[1]] if lab else None, S.fstr(acc[-1][0])[:50]), rd.loc())
                 red = [e for e in p.events if e[0] == "call" and re.search(r"set_color$", e[2]) and "Red" in S.fstr(argval(e, 1))]
                 ob("C18.b", "accepting-state-marked", len(red) == 1, "%d red markers" % len(red), rd.loc())
@@ -384,7 +404,7 @@ def analyze(ctx, want):
     # every state gets its node: the node loop runs over 0..states.len() (or over the states themselves), or the start state is
     # drawn on its own and the loop runs over 1..states.len()
     lens = r"^(Vec::len|slice::len|len)\(&?\*?compiled_dfa\.states\)$"
-    whole = any(lo == "0" and (re.match(lens, hi) or (hi.startswith("enumerate:") and "compiled_dfa.states" in hi)) for lo, hi in node_ranges if lo != "const")
+    whole = any(lo == "0" and (re.match(lens, hi) or (hi.startswith("enumerate:") and re.search(r"compiled_dfa\.(states|end_states)\b", hi))) for lo, hi in node_ranges if lo != "const")
     peeled_ok = ("const", 0) in node_ranges and any(lo == "1" and re.match(lens, hi) for lo, hi in node_ranges if lo != "const")
     ob("C18.a", "node-loop-covers-every-state", (whole and ("const", 0) not in node_ranges) or (peeled_ok and not whole), "nodes drawn for %s" % sorted(node_ranges, key=str), rd.loc())
     ob("C18.a", "every-transition-draws-an-edge", edge_seen >= 1, "%d edge paths" % edge_seen, rd.loc())
@@ -396,7 +416,7 @@ def analyze(ctx, want):
     srcs = sorted(set(s_ for _, s_ in ls))
     # one walk over all states for the nodes, one for the edges (by index range or by enumerate), and one over the transitions
     # of the state at hand
-    over_states = {bb_ for bb_, s_ in ls if "compiled_dfa.states" in s_ and "transitions" not in s_}
+    over_states = {bb_ for bb_, s_ in ls if re.search(r"compiled_dfa\.(states|end_states)\b", s_) and "transitions" not in s_}
     trans_in_closure = any((af[1] == "transitions") for c_ in F.closures_of(rd) for bb_, i_, st_ in c_.assigns() for pl_ in M.rvalue_places(st_["rv"]) for af in M.place_fields(pl_))
     ok = len(over_states) >= 2 and (any("transitions" in s_ for s_ in srcs) or trans_in_closure)
     ob("C18.a", "loops-range-over-all-states-and-transitions", ok, "loop sources: %s" % srcs, rd.loc())
